@@ -427,7 +427,42 @@ func (c *core) checkFastForward(block *hg.Block, frame *hg.Frame) error {
 		return fmt.Errorf("Invalid Frame Hash")
 	}
 
+	// The peer-set the signatures were counted against comes from the response
+	// itself. Require at least one of the valid signers to be a validator this
+	// node already knows (its configured peers, the genesis peers or a
+	// validator-set it derived), so that a responder cannot make it adopt a
+	// state endorsed only by keys of its own invention.
+	if !c.knowsOneSigner(block, peerSet) {
+		return fmt.Errorf("No valid signature from a known validator")
+	}
+
 	return nil
+}
+
+// knowsOneSigner returns true if at least one valid signature of the block was
+// produced by a member of peerSet that this node already knows about.
+func (c *core) knowsOneSigner(block *hg.Block, peerSet *peers.PeerSet) bool {
+	known := make(map[string]bool)
+	for _, ps := range []*peers.PeerSet{c.peers, c.genesisPeers, c.validators} {
+		if ps != nil {
+			for k := range ps.ByPubKey {
+				known[k] = true
+			}
+		}
+	}
+	for k := range c.hg.Store.RepertoireByPubKey() {
+		known[k] = true
+	}
+	for _, s := range block.GetSignatures() {
+		validatorHex := s.ValidatorHex()
+		if _, ok := peerSet.ByPubKey[validatorHex]; !ok || !known[validatorHex] {
+			continue
+		}
+		if ok, _ := block.Verify(s); ok {
+			return true
+		}
+	}
+	return false
 }
 
 // checkFrameStructure returns an error if the block or frame contain nil
